@@ -386,6 +386,20 @@ def ob_fanout_busy_lookup(w, P):
     for sh in fc._shards:
         w.set_busy_hook(sh, hook)
     how = P['how']
+    if how == 'get_reads_blocked':
+        # a lock that blocks reads too (rollback-journal mode with an exclusive writer): the lock-free lookup itself fails with
+        # 'database is locked' -- the sharded cache still reports the default instead of raising
+        for sh in fc._shards:
+            w.set_busy_hook(sh, None)
+            w.set_busy_all_hook(sh, lambda con, sql: True)
+        w.start_events()
+        try:
+            r = ('ok', fc.get(key, default=-7))
+        except Exception as e:
+            r = (type(e).__name__, None)
+        w.stop_events()
+        flag('nontrivial')
+        return [('C14,C13', 'a lookup that cannot read because the database is locked reports the default, it does not raise (%s)' % r[0], r[0] == 'ok' and is_num_like(r[1]) and EqR(zv(r[1]), -7))]
     w.start_events()
     try:
         if how == 'getitem':
@@ -426,6 +440,8 @@ def jobs(tier):
     for m in ('check', '__len__', 'volume', 'stats', '__iter__'):
         out.append(dict(id='fanout.agg.%s.busy' % m, func='ob_aggregate', params=dict(method=m, with_timeouts=True, busy=True), tags=['C13', 'C17', 'C14'], functions=F, weight=4, twin=False,
                         must_reach=['shard_timeout']))
+    out.append(dict(id='fanout.busy.get_reads_blocked', func='ob_fanout_busy_lookup', params=dict(how='get_reads_blocked', policy='least-recently-stored', statistics=0), tags=['C13', 'C14'],
+                    functions=['fanout.FanoutCache.get', 'core.Cache.get'], weight=2, twin=False))
     for how in ('getitem', 'read', 'get_retry', 'get', 'contains'):
         for pol, st in (('least-recently-used', 0), ('least-recently-stored', 1)):
             out.append(dict(id='fanout.busy.%s.%s.%d' % (how, pol.split('-')[-1], st), func='ob_fanout_busy_lookup', params=dict(how=how, policy=pol, statistics=st), tags=['C13', 'C14'],
